@@ -113,6 +113,7 @@ def _direct(R, rng, defn, b, cse, ctx):
                    defn=defn, traceback=K.tb_text(e))])
         return
     names = sorted(defn["state"])
+    last_dt = None
     for pi in range(N_POINTS[ctx["tier"]]):
         pt = gen.point(rng, defn, scale=rng.choice([0.1, 1.0, 1.0, 3.0, 10.0]))
         P = gen.spd(rng, len(names))
@@ -127,6 +128,9 @@ def _direct(R, rng, defn, b, cse, ctx):
             dt = rng.choice([1e-12, -1e-10, 5e-10])
         elif pi == 3:
             dt = -dt
+        if pi >= 4 and pi % 2 == 1 and last_dt is not None:
+            dt = last_dt  # same dt as the previous call on this filter, other state / control values
+        last_dt = dt
         pt[defn["dt"]] = dt
         R.stats.inc("dt_zero_tiny_or_negative_cases" if pi in (1, 2, 3) else "dt_ordinary_cases")
         try:
